@@ -46,7 +46,10 @@ def main():
             log.append(('suite+patch', rc, out[-1500:]))
             for f in demos:
                 shutil.copy(os.path.join(src, f), os.path.join(wt, demo_dir, f))
-            run = meta.get('demo_run', '-run "Demo|Seed"')
+            names = []
+            for f in demos:
+                names += re.findall(r'^func (Test\w+)\(', open(os.path.join(src, f)).read(), re.M)
+            run = '-run "^(%s)$"' % '|'.join(names)
             rc, out = sh('go test -vet=off -count=1 %s .' % run, cwd=os.path.join(wt, demo_dir))
             res['demo_fails_with_patch'] = rc != 0 and ('FAIL' in out)
             log.append(('demo+patch', rc, out[-1500:]))
@@ -63,7 +66,7 @@ def main():
     if not all(res.values()):
         print('NOT CONFIRMED')
         sys.exit(2)
-    dst = os.path.join(ROOT, 'seeded', sid)
+    dst = os.path.join(os.environ.get("SEED_DST", os.path.join(ROOT, "seeded")), sid)
     os.makedirs(dst, exist_ok=True)
     shutil.copy(os.path.join(src, 'patch.diff'), dst)
     for f in demos:
@@ -72,7 +75,7 @@ def main():
     json.dump(meta, open(os.path.join(dst, 'meta.json'), 'w'), indent=1)
     result = {'confirmed_by_coordinator': res, 'round': rnd}
     for k, p in enumerate([prop] + also):
-        rc, out = sh('bin/mutant-run %s seeded/%s/patch.diff' % (p, sid), cwd=ROOT, timeout=3600)
+        rc, out = sh('bin/mutant-run %s %s' % (p, os.path.join(dst, 'patch.diff')), cwd=ROOT, timeout=3600)
         viol = re.findall(r'^VIOLATION property=\S+ replay=\S*?([^/\s]+\.json)(.*)$', out, re.M)
         r = {'exit_code': rc, 'violations': [(a + b).strip() for a, b in viol], 'detected': rc == 1 and bool(viol),
              'concrete_replay': any('no-failing-input-found' not in b for a, b in viol), 'command': 'bin/mutant-run %s seeded/%s/patch.diff' % (p, sid)}
